@@ -164,6 +164,54 @@ pub fn corpus(tier: Tier) -> Vec<Base> {
             }
         }
     }
+    // Structure-aware stress: a header field with an unknown code is accepted and ignored, so it
+    // may carry ANY value; and the body may nest as deep as the codec allows. Values nested right
+    // around the container-depth limits (32 structures / arrays, 64 containers in total; the field
+    // array, the field struct and the field's variant already count) reach code that plain byte
+    // mutations of ordinary messages never do.
+    let nest_struct = |d: usize| {
+        let mut v = RV::Y(7);
+        for _ in 0..d {
+            v = RV::Struct(vec![v]);
+        }
+        v
+    };
+    let nest_var = |d: usize| {
+        let mut v = RV::Y(7);
+        for _ in 0..d {
+            v = var(v);
+        }
+        v
+    };
+    let nest_arr = |d: usize| {
+        let mut v = RV::Y(7);
+        for _ in 0..d {
+            let t = v.ty();
+            v = RV::Array(t, vec![v]);
+        }
+        v
+    };
+    let struct_depths: Vec<usize> = if tier == Tier::Thorough { (26..=35).collect() } else { (29..=33).collect() };
+    let var_depths: Vec<usize> = if tier == Tier::Thorough { (56..=68).collect() } else { (59..=65).collect() };
+    for be in [false, true] {
+        for (kind, depths, mk) in [
+            ("structs", &struct_depths, &nest_struct as &dyn Fn(usize) -> RV),
+            ("arrays", &struct_depths, &nest_arr as &dyn Fn(usize) -> RV),
+            ("variants", &var_depths, &nest_var as &dyn Fn(usize) -> RV),
+        ] {
+            for d in depths.iter() {
+                serial += 1;
+                // in an unknown header field
+                let m = spec(rm::SIGNAL, false, be, &[], serial).field(200, mk(*d));
+                let (bytes, _) = m.encode();
+                out.push(Base { name: format!("signal-unknown-field-{kind}-nested-{d}-{}", if be { "BE" } else { "LE" }), bytes, n_fds: 0 });
+                // and as the body
+                serial += 1;
+                let (bytes, _) = spec(rm::SIGNAL, false, be, &[mk(*d)], serial).encode();
+                out.push(Base { name: format!("signal-body-{kind}-nested-{d}-{}", if be { "BE" } else { "LE" }), bytes, n_fds: 0 });
+            }
+        }
+    }
     out
 }
 
@@ -715,6 +763,10 @@ pub fn main(args: &Args) -> i32 {
     let space = Space::new(args.tier);
     // sanity of the corpus: every base message is valid under the reference parser
     for b in &space.corpus {
+        // (the depth-limit stress messages are deliberately on both sides of the limits)
+        if b.name.contains("-nested-") {
+            continue;
+        }
         if let Err(e) = rm::parse_header(&b.bytes) {
             machinery_failure(&format!("C12: corpus message {} is not valid under the reference parser: {e}", b.name));
         }
